@@ -139,15 +139,34 @@ func c12R1(p *core.Prog, r *core.Report) {
 
 func c12R2(p *core.Prog, r *core.Report) {
 	const rule = "C12.R2"
-	r.Rule(rule, "in (*Resp).next every getHost call whose argument is not the request's own Host is guarded by the false edge of req.NoMirrors", 2)
+	r.Rule(rule, "in internal/reghttp every getHost call whose argument is not a request's own Host is guarded by the false edge of req.NoMirrors", 2)
 	next := p.Method("internal/reghttp", "Resp", "next")
 	if next == nil {
 		r.MissingAnchor(rule, "internal/reghttp.(*Resp).next")
 		return
 	}
-	fn := p.FuncName(next)
 	lab := labeler{}
+	// next, its literals, and the unexported helpers they call that build the host list (functions that
+	// only look a host up to read its state — backoff bookkeeping — do not add to the list)
+	scope := map[*ssa.Function]bool{}
 	for _, f := range core.WithAnon(next) {
+		scope[f] = true
+		for h := range core.Helpers(f, 1) {
+			// a helper counts when it returns host entries
+			res := h.Signature.Results()
+			for i := 0; i < res.Len(); i++ {
+				t := res.At(i).Type()
+				if sl, ok := t.Underlying().(*types.Slice); ok {
+					t = sl.Elem()
+				}
+				if core.IsModNamed(t, "internal/reghttp", "clientHost") && h.Name() != "getHost" {
+					scope[h] = true
+				}
+			}
+		}
+	}
+	for _, f := range sortedFuncs(scope) {
+		fn := p.FuncName(f)
 		for _, c := range core.CallsTo(f, func(cal *types.Func) bool { return core.IsModMethod(cal, "internal/reghttp", "Client", "getHost") }) {
 			arg := core.CallArg(c, 1)
 			os := core.Origins(arg, core.SliceOpts{})
@@ -521,10 +540,93 @@ func pagerShape(p *core.Prog, l *core.Loop) (bool, string) {
 // leaves the function.
 func c12ChunkLoop(p *core.Prog, r *core.Report, rule string, fn *ssa.Function, l *core.Loop, label, pos string) {
 	fname := p.FuncName(fn)
-	// find counter cells: locals incremented in the loop
+	// the retry budget: a local integer that the loop steps by a constant and compares (ordered) on a
+	// branch one side of which leaves the function. Which direction consumes the budget is read off the
+	// comparison: `v > limit` leaving on true means counting up, `v < 0` leaving on true counting down.
 	type incSite struct {
 		st   *ssa.Store
 		cell *ssa.Alloc
+	}
+	leavesFn := func(b *ssa.BasicBlock) bool {
+		_, isRet := core.LastInstr(b).(*ssa.Return)
+		return isRet
+	}
+	// consuming direction per cell / per header phi: +1 up, -1 down, 0 unknown
+	cellDir := map[*ssa.Alloc]int{}
+	phiDir := map[*ssa.Phi]int{}
+	loadOfCell := func(v ssa.Value) *ssa.Alloc {
+		if u, ok := v.(*ssa.UnOp); ok && u.Op == token.MUL {
+			if al, ok := u.X.(*ssa.Alloc); ok {
+				return al
+			}
+		}
+		return nil
+	}
+	headerPhiOf := func(v ssa.Value) *ssa.Phi {
+		// the header phi a value is, or is a ±const step of
+		for d := 0; d < 3 && v != nil; d++ {
+			switch x := v.(type) {
+			case *ssa.Phi:
+				if l.Blocks[x.Block()] {
+					return x
+				}
+				return nil
+			case *ssa.BinOp:
+				if _, isK := core.ConstInt(x.Y); isK && (x.Op == token.ADD || x.Op == token.SUB) {
+					v = x.X
+					continue
+				}
+				return nil
+			default:
+				return nil
+			}
+		}
+		return nil
+	}
+	for blk := range l.Blocks {
+		ifi, ok := core.LastInstr(blk).(*ssa.If)
+		if !ok {
+			continue
+		}
+		cnd, pol := core.StripNot(ifi.Cond, true)
+		bo, ok := cnd.(*ssa.BinOp)
+		if !ok {
+			continue
+		}
+		var up bool // the comparison is true when the left operand is large
+		switch bo.Op {
+		case token.GTR, token.GEQ:
+			up = true
+		case token.LSS, token.LEQ:
+			up = false
+		default:
+			continue
+		}
+		// the edge that leaves the function
+		exitTrue := leavesFn(blk.Succs[0])
+		exitFalse := leavesFn(blk.Succs[1])
+		if exitTrue == exitFalse {
+			continue
+		}
+		exitWhenCondTrue := exitTrue == pol
+		for side, v := range []ssa.Value{bo.X, bo.Y} {
+			// the variable is on the left (side 0) or on the right (side 1): a large left operand makes
+			// `>` true; for the right operand the sense is reversed
+			grows := up == exitWhenCondTrue
+			if side == 1 {
+				grows = !grows
+			}
+			dir := -1
+			if grows {
+				dir = 1
+			}
+			if al := loadOfCell(v); al != nil && types.Identical(al.Type().(*types.Pointer).Elem().Underlying(), types.Typ[types.Int]) {
+				cellDir[al] = dir
+			}
+			if ph := headerPhiOf(v); ph != nil {
+				phiDir[ph] = dir
+			}
+		}
 	}
 	var incs []incSite
 	l.Instrs(func(in ssa.Instruction) {
@@ -533,22 +635,41 @@ func c12ChunkLoop(p *core.Prog, r *core.Report, rule string, fn *ssa.Function, l
 			return
 		}
 		cell, ok := st.Addr.(*ssa.Alloc)
-		if !ok {
+		if !ok || cellDir[cell] == 0 {
 			return
 		}
 		bo, ok := st.Val.(*ssa.BinOp)
-		if !ok || bo.Op != token.ADD {
+		if !ok || (bo.Op != token.ADD && bo.Op != token.SUB) {
 			return
 		}
 		if c, ok := core.ConstInt(bo.Y); !ok || c <= 0 {
 			return
 		}
-		if u, ok := bo.X.(*ssa.UnOp); ok && u.Op == token.MUL && u.X == cell && strings.Contains(strings.ToLower(cell.Comment), "retry") {
+		if loadOfCell(bo.X) != cell {
+			return
+		}
+		if (bo.Op == token.ADD) == (cellDir[cell] == 1) {
 			incs = append(incs, incSite{st, cell})
 		}
 	})
-	// go/ssa may also keep the counter as a phi (no closure captures it): handle phi-form.
-	phiIncs := chunkPhiIncrements(l)
+	// go/ssa keeps the counter as a phi when no closure captures it
+	var phiIncs []*ssa.BinOp
+	l.Instrs(func(in ssa.Instruction) {
+		bo, ok := in.(*ssa.BinOp)
+		if !ok || (bo.Op != token.ADD && bo.Op != token.SUB) {
+			return
+		}
+		if c, ok := core.ConstInt(bo.Y); !ok || c <= 0 {
+			return
+		}
+		ph := headerPhiOf(bo.X)
+		if ph == nil || phiDir[ph] == 0 || !types.Identical(bo.Type().Underlying(), types.Typ[types.Int]) {
+			return
+		}
+		if (bo.Op == token.ADD) == (phiDir[ph] == 1) {
+			phiIncs = append(phiIncs, bo)
+		}
+	})
 	if len(incs) == 0 && len(phiIncs) == 0 {
 		// inner read loop has no request; the outer loop must have the counter
 		if requestsInLoopOnlyViaInner(l) {
